@@ -34,7 +34,10 @@ package fstxn
 //@   requires superInv(super) && acceptedSize(dsksize) && log != nil
 //@   requires [R4-recovered] recovered @C01
 //@   allocates buf.Buf, []uint8, fstxn.FsState, alloc.Alloc, cache.Cache, lockmap.LockMap
-//@   modifies abits, asize
+//@   modifies abits, asize, theBalloc, theIalloc
+//@   ghostexit theBalloc = base(result.Balloc)
+//@   ghostexit theIalloc = base(result.Ialloc)
+//@   ensures [R5-state] fsInv(result) @C01 @C10
 //@   ensures result != nil && fresh(result) && result.Super == super && result.Txn == log && result.Balloc != nil && result.Ialloc != nil && result.Balloc != result.Ialloc
 //@   ensures [G4-balloc] forall n uint64 :: n < super.NBlockBitmap * 32768 ==> (abits[base(result.Balloc)][n] <==> lbit(super.BitmapBlockStart() + n/32768, n%32768)) @C15 @C10 @C01 @C05
 //@   ensures [G4-ialloc] forall n uint64 :: n < 32768 ==> (abits[base(result.Ialloc)][n] <==> lbit(super.BitmapInodeStart(), n)) @C15 @C10 @C01 @C05
